@@ -262,6 +262,36 @@ def _opt_ok_or(ctx, o, e):
     return Enum(d, {0: (opt_val(o),), 1: (e,)})
 
 
+@model(r'^std::option::Option::<.*>::or$')
+def _opt_or(ctx, a, b):
+    return ite(opt_is_some(a), a, b)
+
+
+@model(r'^std::option::Option::<.*>::or_else::<.*>$')
+def _opt_or_else(ctx, a, clos):
+    c = opt_is_some(a)
+    if c is True:
+        return a
+    v = call_under(ctx, b_not(c), clos, [])
+    return ite(c, a, v)
+
+
+@model(r'^core::slice::<impl \[.*\]>::first$')
+def _slice_first(ctx, p):
+    s, a, b = slice_window(ctx, p)
+    ents = s.ents[a:b]
+    if not ents:
+        return NONE
+    if s.dense():
+        return some(Ptr(p.root, p.path + (('i', CI(a, 64)),)))
+    # sparse: first entry whose guard holds
+    out = NONE
+    for k in reversed(range(len(ents))):
+        g, v = ents[k]
+        out = ite(g, some(Ptr(p.root, p.path + (('e', a + k),))), out) if g is not True else some(Ptr(p.root, p.path + (('e', a + k),)))
+    return out
+
+
 @model(r'^std::option::Option::<.*>::ok_or_else::<.*>$')
 def _opt_ok_or_else(ctx, o, clos):
     c = opt_is_some(o)
